@@ -357,10 +357,50 @@ def float_buffers(ctx):
     dtypeflow.float_buffers(ctx, 'FLOAT-BUFFERS', ISM, 'ISMPath.unittangent', floor=3, attrs=base, what='the unit difference vectors')
 
 
+def named_functions(ctx):
+    """the setters that accept a function by name: each documented name selects the function of that name ('euler' the Euler step, 'rk' / 'rungekutta' the Runge-Kutta
+    step, 'cdiff' / 'central_difference' the central difference), a callable is kept as given, anything else is refused"""
+    from ..symx import SymObj
+    cls = ctx.fn(BP, 'BasePath')
+
+    class Ns(PyStub):
+        def __init__(self, names):
+            for n_ in names:
+                setattr(self, n_, ('FUNCTION', n_))
+    table = (('integratorfxn', '_BasePath__integratorfxn', 'integrator', Ns(['euler', 'rungekutta']), {'euler': 'euler', 'rk': 'rungekutta', 'rungekutta': 'rungekutta'}),
+             ('gradientfxn', '_BasePath__gradientfxn', 'gradient', Ns(['central_difference']), {'cdiff': 'central_difference', 'central_difference': 'central_difference'}))
+    n = 0
+    for prop, attr, modname, ns, names in table:
+        fn = ctx.fn(BP, 'BasePath.' + prop, setter=True)
+        loc = BP + '::BasePath.%s.setter' % prop
+
+        def run_(value):
+            obj = SymObj(cls, {}, 'self')
+            ev = SymEval(module_aliases(ctx.mod(BP)))
+            ev.globals = {modname: ns, 'callable': lambda v: callable(v) and not isinstance(v, str)}
+            try:
+                live = [q for q in ev.run_fn(fn, [obj, value], {}) if q.done == 'return']
+            except WouldRaise:
+                return 'refused'
+            except Opaque as e:
+                raise AnalysisError('BasePath.%s setter (%r): %s' % (prop, value, e))
+            return obj.attrs.get(attr, 'nothing stored') if live else 'refused'
+        for name, want in sorted(names.items()):
+            got = run_(name)
+            n += 1
+            ctx.ob('NAMED-FUNCTIONS', loc, "%s = '%s' selects %s.%s" % (prop, name, modname, want), got == ('FUNCTION', want), 'selected %r' % (got,), node=fn, key='%s %s' % (prop, name))
+        f = lambda *a, **k: None
+        n += 1
+        ctx.ob('NAMED-FUNCTIONS', loc, '%s given as a function is kept as given' % prop, run_(f) is f, node=fn, key='%s callable' % prop)
+        n += 1
+        ctx.ob('NAMED-FUNCTIONS', loc, '%s given as an unknown name or as a number is refused' % prop, run_('no_such_style') == 'refused' and run_(sp.Integer(3)) == 'refused', node=fn, key='%s refusal' % prop)
+    ctx.floor('NAMED-FUNCTIONS', n, 9)
+
+
 def run(ctx):
     ctx.explanation = ('C20: integrator update formulas are extracted from the syntax tree with the rate function bound to the linear law '
                        'and compared, as polynomials in h·λ, with the Taylor polynomial of exp; the central difference is applied to a generic '
                        'cubic and its error expanded in the step; default-argument feasibility is a contradiction rule on the constructors; '
                        'the string step\'s rate laws, tangents and image selection are extracted and compared with the documented formulas. '
                        'Not decided: convergence to the minima/saddle.')
-    ctx.run_rules([lambda c: linear_order(c, EU, 'euler', 1), lambda c: linear_order(c, RK, 'rungekutta', 4), cdiff, default_feasible, string_step, pure_step, step_model, relax_model, relax_criterion, float_buffers])
+    ctx.run_rules([lambda c: linear_order(c, EU, 'euler', 1), lambda c: linear_order(c, RK, 'rungekutta', 4), cdiff, default_feasible, string_step, pure_step, step_model, relax_model, relax_criterion, float_buffers, named_functions])
